@@ -72,9 +72,40 @@ def late_dr(rng):
     return {"tree": tree, "steps": steps, "rounds": [rnd]}
 
 
+def rename_back(rng):
+    """a file gets a FORMER name back: a -> b recorded with -dr, then b -> a (and for a second file a -> b -> c -> a) recorded
+    with -dr, one step per generation; the tree is accepted after each round like after any other rename"""
+    distinct = set()
+    tree = {"keep.bin": {"f": gen.gen_content(rng, distinct) or "0c0c"}, "A001.mov": {"f": gen.gen_content(rng, distinct) or "a177"},
+            "D": {"d": {"in.bin": {"f": gen.gen_content(rng, distinct) or "d188"}}}}
+    victims = ["A001.mov"] + (["D/in.bin"] if rng.random() < 0.5 else [])
+    steps = [{"op": "create", "fmts": gen.gen_fmts(rng)}]
+    rounds = []
+    names = {v: [v, v + ".renamed"] + ([("moved/" + v.replace("/", "_"))] if rng.random() < 0.4 else []) + [v] for v in victims}
+    for k in range(max(len(n) for n in names.values()) - 1):
+        ren = {}
+        for v, seq in names.items():
+            if k + 1 < len(seq):
+                steps.append({"op": "rename", "path": seq[k], "to": seq[k + 1]})
+                ren[seq[k]] = seq[k + 1]
+        rnd = {"map": ren, "dr": True, "create": len(steps)}
+        steps.append({"op": "create", "fmts": gen.gen_fmts(rng), "dr": True})
+        acc = []
+        for op in rng.sample(["verify", "diff", "create"], rng.choice([2, 3])):
+            acc.append(len(steps))
+            steps.append({"op": op, **({"fmts": gen.gen_fmts(rng)} if op == "create" else {})})
+        rnd["accept"] = acc
+        rounds.append(rnd)
+    steps.append({"op": "create", "fmts": gen.gen_fmts(rng), "dr": True})
+    steps.append({"op": "verify"})
+    return {"tree": tree, "steps": steps, "rounds": rounds}
+
+
 def scenario(rng, i):
     if i % 6 == 4:
         return mixed_formats(rng)
+    if i % 8 == 3:
+        return rename_back(rng)
     if i % 8 == 7:
         return late_dr(rng)
     distinct = set()
@@ -163,7 +194,7 @@ def scenario(rng, i):
 
 RULE = ("trees with pairwise distinct non-empty contents; 1-3 rounds (a file may be renamed again in a later round) of 1-4 simultaneous file renames / moves between directories of one history (also into new folders, also keeping "
         "the base name) plus unrelated new files; each round is followed by create -dr (same or other formats) then verify / diff / create, optionally by altering a renamed "
-        "file and verify -- or by verify / diff / create WITHOUT -dr; one scenario in six renames files first recorded in different formats (generations 1 and 2) at the same time and runs -dr in a third format; oracle: exit codes, <previousPath> of every renamed file, nothing reported missing, old+new paths "
+        "file and verify -- or by verify / diff / create WITHOUT -dr; one scenario in six renames files first recorded in different formats (generations 1 and 2) at the same time and runs -dr in a third format; one in eight gives a file a former name back (a -> b -> a, a -> b -> c -> a); oracle: exit codes, <previousPath> of every renamed file, nothing reported missing, old+new paths "
         "reported without -dr. Non-trivial: at least one round with -dr and >= 2 renames or a second round.")
 check, replay = make("C17", oracles.oracle_c17, scenario, 60, 1500, RULE,
                      nontrivial=lambda scn, obs: any(r["dr"] and (len(r["map"]) >= 2) for r in scn["rounds"]) or len(scn["rounds"]) >= 2)
